@@ -522,11 +522,12 @@ theorem fromVec_safe (v : Array (Item × P)) :
   show IMap.lookup s'.map k = _
   rw [h3]; exact lookup_fromVec v k
 
-/-- **`FromIterator`**, for EVERY sequence: the LAST pair of each key is kept (with its own item) -/
-theorem fromIter_safe (xs : Array (Item × P)) :
-    ∃ s', fromIter xs = .ok s' ∧ s'.WF ∧ ∀ k, s'.abs k = xs.toList.reverse.find? (fun e => e.1.key == k) := by
+/-- **`FromIterator`**, for EVERY sequence and every `size_hint` lower bound below the capacity limit: the LAST pair of
+each key is kept (with its own item) -/
+theorem fromIter_safe (lo : Nat) (xs : Array (Item × P)) (hlo : lo < capLimit) :
+    ∃ s', fromIter lo xs = .ok s' ∧ s'.WF ∧ ∀ k, s'.abs k = xs.toList.reverse.find? (fun e => e.1.key == k) := by
   obtain ⟨s', h1, h2, h3, h4⟩ := heapBuild_safe (wf_fromIter xs)
-  refine ⟨s', h1, h2, fun k => ?_⟩
+  refine ⟨s', by rw [fromIter_of_lt xs hlo]; exact h1, h2, fun k => ?_⟩
   show IMap.lookup s'.map k = _
   rw [h3]; exact lookup_fromIter xs k
 
@@ -534,16 +535,16 @@ theorem fromIter_safe (xs : Array (Item × P)) :
 theorem ofStore_safe {s : Store P} (h : s.WF) :
     ∃ s', ofStore s = .ok s' ∧ s'.WF ∧ s'.map = s.map ∧ s'.size = s.size := heapBuild_safe h
 
-/-- **`Deserialize`**, total: for EVERY pair sequence (repeated items included) — each key gets the item of its
-FIRST pair and the priority of its LAST pair -/
-theorem deserialize_safe (xs : Array (Item × P)) :
-    ∃ s', deserialize xs = .ok s' ∧ s'.WF ∧ s'.abs = xs.foldl Store.absStep (fun _ => none) ∧
+/-- **`Deserialize`**, total: for EVERY announced length `hint` and EVERY pair sequence (repeated items included) — each
+key gets the item of its FIRST pair and the priority of its LAST pair -/
+theorem deserialize_safe (hint : Option Nat) (xs : Array (Item × P)) :
+    ∃ s', deserialize hint xs = .ok s' ∧ s'.WF ∧ s'.abs = xs.foldl Store.absStep (fun _ => none) ∧
       ∀ k, s'.abs k =
         match xs.toList.reverse.find? (fun e => e.1.key == k) with
         | none => none
         | some b => some (((xs.toList.find? (fun e => e.1.key == k)).map (·.1)).getD b.1, b.2) := by
   obtain ⟨s', h1, h2, h3, h4⟩ := heapBuild_safe (wf_visitSeq xs)
-  refine ⟨s', h1, h2, ?_, fun k => ?_⟩
+  refine ⟨s', by rw [deserialize_eq]; exact h1, h2, ?_, fun k => ?_⟩
   · show IMap.lookup s'.map = _
     rw [h3]; exact lookup_visitSeq_fold xs
   · show IMap.lookup s'.map k = _
@@ -572,29 +573,29 @@ theorem pushAll_safe (l : List (Item × P)) : ∀ {s : Store P}, s.WF →
     · simp [pushAll, h1, h2, bind, Except.bind]
     · rw [h2abs, h1abs, absPush_eq_absStep, List.foldl_cons]
 
-theorem extend_eval_rebuild {s : Store P} {lo : Nat} (xs : Array (Item × P))
+theorem extend_eval_rebuild {s : Store P} {lo : Nat} (xs : Array (Item × P)) (hlo : lo < capLimit)
     (hr : (if lo ≠ 0 then betterToRebuild s.size lo else false) = true) :
     extend s lo xs = heapBuild (s.extend xs) := by
-  unfold extend; simp only [hr, if_true]
+  rw [extend_of_lt xs hlo]; simp only [hr, if_true]
 
-theorem extend_eval_pushAll {s : Store P} {lo : Nat} (xs : Array (Item × P))
+theorem extend_eval_pushAll {s : Store P} {lo : Nat} (xs : Array (Item × P)) (hlo : lo < capLimit)
     (hr : (if lo ≠ 0 then betterToRebuild s.size lo else false) = false) :
     extend s lo xs = pushAll xs.toList s := by
-  unfold extend; simp [hr]
+  rw [extend_of_lt xs hlo]; simp [hr]
 
-/-- **`Extend::extend`**, for EVERY `size_hint` lower bound `lo`: both strategies (rebuild, or push one by one) give
-the same contents, item payloads included -/
-theorem extend_safe {s : Store P} (h : s.WF) (lo : Nat) (xs : Array (Item × P)) :
+/-- **`Extend::extend`**, for EVERY `size_hint` lower bound `lo` below the capacity limit (in particular every LEGAL one:
+`lo ≤ xs.size < capLimit`): both strategies (rebuild, or push one by one) give the same contents, item payloads included -/
+theorem extend_safe {s : Store P} (h : s.WF) (lo : Nat) (xs : Array (Item × P)) (hlo : lo < capLimit) :
     ∃ s', extend s lo xs = .ok s' ∧ s'.WF ∧ s'.abs = xs.foldl Store.absStep s.abs := by
   cases hr : (if lo ≠ 0 then betterToRebuild s.size lo else false) with
   | true =>
     obtain ⟨s', h1, h2, h3, _⟩ := heapBuild_safe (wf_extend h xs)
-    refine ⟨s', by rw [extend_eval_rebuild xs hr]; exact h1, h2, ?_⟩
+    refine ⟨s', by rw [extend_eval_rebuild xs hlo hr]; exact h1, h2, ?_⟩
     show IMap.lookup s'.map = _
     rw [h3]; exact lookup_extend s xs
   | false =>
     obtain ⟨s', h1, h2, h3⟩ := pushAll_safe xs.toList h
-    exact ⟨s', by rw [extend_eval_pushAll xs hr]; exact h1, h2, by rw [h3, Array.foldl_toList]⟩
+    exact ⟨s', by rw [extend_eval_pushAll xs hlo hr]; exact h1, h2, by rw [h3, Array.foldl_toList]⟩
 
 /-! ### `into_sorted_vec` / `into_sorted_iter`: pop until empty -/
 
@@ -756,8 +757,8 @@ example : okWF1 (retainMut exW fDrop) 4 := by decide +kernel
 example : okR (append exW exO) (fun r => r.1.WF ∧ r.1.size = 6 ∧ r.2.WF ∧ r.2.size = 0 ∧
     r.1.abs 1 = some (⟨1, 10⟩, 5) ∧ r.1.abs 9 = some (⟨9, 90⟩, 2)) := by decide +kernel
 example : okWF1 (fromVec #[(⟨1, 0⟩, 5), (⟨1, 9⟩, 7), (⟨2, 0⟩, 1)]) 2 := by decide +kernel
-example : okWF1 (fromIter #[(⟨1, 0⟩, 5), (⟨1, 9⟩, 7), (⟨2, 0⟩, 1)]) 2 := by decide +kernel
-example : okWF1 (deserialize #[(⟨1, 0⟩, 5), (⟨1, 9⟩, 7), (⟨2, 0⟩, 1)]) 2 := by decide +kernel
+example : okWF1 (fromIter 3 #[(⟨1, 0⟩, 5), (⟨1, 9⟩, 7), (⟨2, 0⟩, 1)]) 2 := by decide +kernel
+example : okWF1 (deserialize (some (2 ^ 64 - 1)) #[(⟨1, 0⟩, 5), (⟨1, 9⟩, 7), (⟨2, 0⟩, 1)]) 2 := by decide +kernel
 example : okWF1 (ofStore exW) 5 := by decide +kernel
 example : okWF1 (pushAll [(⟨4, 0⟩, 9), (⟨7, 0⟩, 2)] exW) 6 := by decide +kernel
 example : okWF1 (extend exW 0 #[(⟨4, 0⟩, 9), (⟨7, 0⟩, 2)]) 6 := by decide +kernel
